@@ -1,12 +1,17 @@
 """C07 -- per-test leak verdict: leaking tests fail, clean ones pass, blame is correct.
 Scenario:  <mode> <tbd> <pre> <ntests> { <before> <ipre> <setup> <body> <teardown> <ipost> } <tail>
    list ::= <n> stmt*n      stmt ::= :a id size kind | :f id | :r id size | :x | :e n | :i
+                                    | :pn j shared | :pd j | :pa j id size | :pf j id | :pr j id size | :pb j | :pe j | :pq j k
+   (:p* = statements about FURTHER MemoryLeakWarningPlugin instances q[j]: construct on a private detector / on the runner's detector,
+   destroy, allocate/release/realloc through the private detector, q[j]->preTestAction / postTestAction with a TestResult of its own,
+   q[j]->FinalReport(k); they may stand in any list but <pre>)
    mode 0 = local detector handed to the plugin (blocks through allocMemory/deallocMemory), 1 = fresh global detector (blocks
    through operator new / new [] / cpputest_malloc); tbd = FinalReport(toBeDeletedLeaks); <pre> = statements run before the plugin
    is created (detector disabled); <before> = pre-action of a plugin installed after the leak plugin (runs before the leak
    plugin's pre-action); <ipre>/<ipost> = pre-/post-action of a plugin installed before the leak plugin (run inside the checking
    window; :x there adds a failure without leaving); <tail> = statements after the last test, before FinalReport.
-Observation: <err> <ntests> { nfail nleak noleaks many total k (ordinal size)^k } <stray> <empty> <noleaks> <many> <total> k (ordinal size)^k"""
+Observation: <err> <ntests> { nfail nleak noleaks many total k (ordinal size)^k } <stray> <empty> <noleaks> <many> <total> k (ordinal size)^k
+             <nsec> { 0 j nfail nleak noleaks many total k (ordinal size)^k | 1 j empty noleaks many total k (ordinal size)^k }"""
 ID = "C07"
 FLAVOURS = ["asan"]
 HARNESS_SRCS = ["harness/C07.cpp"]
@@ -28,7 +33,11 @@ ASSUMPTIONS = ["new/delete overloads are on (otherwise the plugin only prints a 
                "plugins other than the leak plugin add their failures to the TestResult (the plugin compares failure counts)",
                "reports stay below the 4096-byte buffer (C14); beyond it only subset + total are demanded",
                "tests run in the current process; failure counts stay below 2^32"]
+BEFORE, IPRE, SETUP, BODY, TEARDOWN, IPOST = range(6)
 MAXID = 4096
+NSLOT = 8
+ARITY = {":a": 3, ":f": 1, ":r": 2, ":x": 0, ":e": 1, ":i": 0,
+         ":pn": 2, ":pd": 1, ":pa": 3, ":pf": 2, ":pr": 3, ":pb": 1, ":pe": 1, ":pq": 2}
 
 
 # ----------------------------------------------------------------------------- reading a scenario
@@ -42,7 +51,7 @@ def parse(s):
         out = []
         for _ in range(n):
             k = t[pos[0]]
-            ar = {":a": 3, ":f": 1, ":r": 2, ":x": 0, ":e": 1, ":i": 0}[k]
+            ar = ARITY[k]
             out.append(tuple([k] + [int(x, 16) for x in t[pos[0] + 1:pos[0] + 1 + ar]]))
             pos[0] += 1 + ar
         return out
@@ -65,7 +74,6 @@ def fmt(mode, tbd, pre, tests, tail):
     return " ".join(["%x %x" % (mode, tbd), fmt_list(pre), "%x" % len(tests)] + [" ".join(fmt_list(p) for p in t) for t in tests] + [fmt_list(tail)])
 
 
-BEFORE, IPRE, SETUP, BODY, TEARDOWN, IPOST = range(6)
 
 
 def upto_fail(l):
@@ -113,14 +121,64 @@ def trace(tests, tail):
     return tr + tail
 
 
-def py_valid(pre, tests, tail):
+def is_inst(st):
+    return st[0].startswith(":p")
+
+
+class Insts:
+    """what the text says about the further instances (mirror of tstep / demand in coq/C07_ModelM.v)"""
+
+    def __init__(self):
+        self.al = {}          # slot -> dict(shared, text, win)
+
+    def step(self, st):
+        """-> (ok, demand) ; demand = None | ("post", j, base, W) | ("final", j, out, k)"""
+        k = st[0]
+        if not is_inst(st):
+            return True, None
+        j = st[1]
+        if k == ":pn":
+            if j >= NSLOT or j in self.al or st[2] > 1:
+                return False, None
+            self.al[j] = dict(shared=bool(st[2]), text=[], win=None)
+            return True, None
+        t = self.al.get(j)
+        if t is None:
+            return False, None
+        if k == ":pd":
+            del self.al[j]
+            return True, None
+        if t["shared"]:
+            return False, None
+        allt = t["text"] + (t["win"] or [])
+        if k in (":pa", ":pf", ":pr"):
+            b = (":a", st[2], st[3], 2) if k == ":pa" else (":f", st[2]) if k == ":pf" else (":r", st[2], st[3])
+            if not trace_ok(allt + [b]):
+                return False, None
+            (t["win"] if t["win"] is not None else t["text"]).append(b)
+            return True, None
+        if k == ":pb":
+            if t["win"] is not None:
+                return False, None
+            t["win"] = []
+            return True, None
+        if k == ":pe":
+            if t["win"] is None:
+                return False, None
+            d = ("post", j, 1 + allocs(t["text"]), list(t["win"]))
+            t["text"] = allt
+            t["win"] = None
+            return True, d
+        if k == ":pq":
+            if t["win"] is not None or st[2] >= 1 << 32:
+                return False, None
+            return True, ("final", j, leaked(1, t["text"]), st[2])
+        return False, None
+
+
+def trace_ok(l):
     live = {}
-    for t in tests:
-        if any(st[0] not in (":a", ":f", ":r") for st in t[0]):
-            return False
-    if any(st[0] not in (":a", ":f", ":r") for st in tail + pre):
-        return False
-    for st in pre + trace(tests, tail):
+    for st in l:
         if st[0] == ":a":
             if st[1] in live or st[1] >= MAXID or st[2] > 64 or st[3] > 2:
                 return False
@@ -132,6 +190,27 @@ def py_valid(pre, tests, tail):
         elif st[0] == ":f":
             live.pop(st[1], None)
         elif st[0] == ":e" and st[1] >= 1 << 32:
+            return False
+    return True
+
+
+def py_valid(pre, tests, tail):
+    for t in tests:
+        if any(st[0] not in (":a", ":f", ":r") and not is_inst(st) for st in t[0]):
+            return False
+        for p in (IPRE, SETUP, BODY, TEARDOWN, IPOST):
+            if any(st[0] == ":pn" and st[2] for st in t[p]):      # a plugin on the runner's detector constructed inside the window
+                return False
+    if any(st[0] not in (":a", ":f", ":r") and not is_inst(st) for st in tail):
+        return False
+    if any(st[0] not in (":a", ":f", ":r") for st in pre):
+        return False
+    tr = trace(tests, tail)
+    if not trace_ok([st for st in pre + tr if not is_inst(st)]):
+        return False
+    ins = Insts()
+    for st in tr:
+        if not ins.step(st)[0]:
             return False
     return True
 
@@ -281,7 +360,117 @@ def gen_program(rng, big=False):
         tail.append((":f", i))
     out = leaked(b0, trace(tests, tail))
     tbd = rng.choice([0, 0, len(out), len(out), max(len(out) - 1, 0), len(out) + 1])
+    p_op = rng.choice([0.0, 0.0, 0.08, 0.2, 0.4])      # further plugin instances: none / a few / many
+    if p_op:
+        weave(rng, tests, tail, p_op)
     return fmt(mode, tbd, pre, tests, tail)
+
+
+def weave(rng, tests, tail, p_op):
+    """statements about further plugin instances, put at executed positions of the program (and a few behind failing checks, where
+    they never run): construct (private detector / the runner's detector -- the latter only outside the checking window), destroy,
+    allocate / release / realloc through the private detector, the instance's pre/postTestAction, its FinalReport(k).  Aimed at:
+    an instance destroyed BEFORE a later test that uses the macros; an instance constructed when firstPlugin_ is already set, with
+    an allocation before its first preTestAction and a FinalReport later; construction / destruction inside a test between a macro
+    and the end of the test; slots reused; several instances alive at once."""
+    ins = Insts()
+    style = rng.choice(["mix", "mix", "newdel", "early-alloc", "nested-tests"])
+
+    def size():
+        return rng.choice([0, 1, 1, 2, 8, 16])
+
+    def one(outside):
+        al = ins.al
+        free = [j for j in range(rng.choice([1, 2, 3, NSLOT])) if j not in al]
+        priv = [j for j, t in al.items() if not t["shared"]]
+        cands = []
+        if free:
+            cands += ["new"] * (4 if not al else 1)
+        if al:
+            cands += ["del"] * (3 if style == "newdel" else 1)
+        for j in priv:
+            t = al[j]
+            live = live_ids(t["text"] + (t["win"] or []))
+            if len(live) < 5:
+                cands += [("pa", j)] * (4 if (style == "early-alloc" and not t["text"]) else 2)
+            cands += [("pf", j)]
+            if rng.random() < 0.3:
+                cands += [("pr", j)]
+            if t["win"] is None:
+                cands += [("pq", j)] * (3 if t["text"] else 1)
+                cands += [("pb", j)] * (3 if style == "nested-tests" else 1)
+            else:
+                cands += [("pe", j)] * 2
+        if not cands:
+            return None
+        c = rng.choice(cands)
+        if c == "new":
+            j = rng.choice(free)
+            return (":pn", j, 1 if (outside and rng.random() < 0.3) else 0)
+        if c == "del":
+            return (":pd", rng.choice(sorted(al)))
+        k, j = c
+        t = al[j]
+        live = live_ids(t["text"] + (t["win"] or []))
+        if k == "pa":
+            ids = [i for i in range(8) if i not in live]
+            return (":pa", j, rng.choice(ids), size())
+        if k == "pf":
+            return (":pf", j, rng.choice(sorted(live)) if live and rng.random() < 0.8 else rng.randrange(8))
+        if k == "pr":
+            return (":pr", j, rng.choice(sorted(live)) if live and rng.random() < 0.6 else rng.randrange(8), size())
+        if k == "pq":
+            out = len(leaked(1, t["text"]))
+            return (":pq", j, rng.choice([0, 0, out, max(out - 1, 0), out + 1]))
+        return (":" + k, j)
+
+    def put(lst, upto, outside):
+        """insert into lst at positions 0..upto (all executed)"""
+        pos = 0
+        while pos <= upto:
+            if rng.random() < p_op:
+                st = one(outside)
+                if st and ins.step(st)[0]:
+                    lst.insert(pos, st)
+                    pos += 1
+                    upto += 1
+                    continue
+            pos += 1
+
+    def dead(lst, frm):
+        """behind a failing check: never runs"""
+        if rng.random() < 0.3:
+            lst.insert(rng.randrange(frm, len(lst) + 1), rng.choice([(":pn", rng.randrange(NSLOT), 0), (":pd", rng.randrange(NSLOT)), (":pb", 0), (":pq", 1, 0), (":pa", 0, 1, 1)]))
+
+    for t in tests:
+        put(t[BEFORE], len(t[BEFORE]), True)
+        put(t[IPRE], len(t[IPRE]), False)
+        setup_failed = False
+        for p in (SETUP, BODY, TEARDOWN):
+            if p == BODY and setup_failed:
+                dead(t[p], 0)
+                continue
+            fx = [i for i, st in enumerate(t[p]) if st[0] == ":x"]
+            if fx:
+                n0 = len(t[p])
+                put(t[p], fx[0], False)
+                dead(t[p], fx[0] + 1 + len(t[p]) - n0)
+                if p == SETUP:
+                    setup_failed = True
+            else:
+                put(t[p], len(t[p]), False)
+        put(t[IPOST], len(t[IPOST]), False)
+    put(tail, len(tail), True)
+
+
+def live_ids(l):
+    live = set()
+    for st in l:
+        if st[0] in (":a", ":r"):
+            live.add(st[1])
+        elif st[0] == ":f":
+            live.discard(st[1])
+    return live
 
 
 def generate(tier, rng):
